@@ -235,6 +235,12 @@ def build(prop, tier="quick"):
             return b2
         return pre
 
+    NOEX = [["F", "__CPROVER_assigns(verif_noexcept)"]]
+
+    def with_throws0(cname):
+        w = with_throws(cname)
+        return lambda b: "verif_noexcept = 0; /* not declared noexcept */" + w(b)
+
     def harness(cname, csig, replace=()):
         # csig: 'ret name(params)'
         ptxt = csig[csig.index("(") + 1:csig.rindex(")")]
@@ -249,7 +255,7 @@ def build(prop, tier="quick"):
                 else:
                     decls.append("%s a%d;" % (ty, k))
                 args.append("a%d" % k)
-        kb.add("void h_%s(void) { %s %s(%s); VERIF_CANARY(\"%s returns normally\"); }" % (cname, " ".join(decls), cname, ", ".join(args), cname))
+        kb.add("void h_%s(void) { verif_noexcept = 0; %s %s(%s); VERIF_CANARY(\"%s returns normally\"); }" % (cname, " ".join(decls), cname, ", ".join(args), cname))
         t = Target(cname, "h_" + cname, replace=list(replace))
         kb.targets.append(t)
         return t
@@ -320,8 +326,9 @@ def build(prop, tier="quick"):
                     raise ExtractionBreak("%s: lambda declarator %r not in the rule set" % (base, tail))
                 is_noexcept = "noexcept" in tail
                 w = with_throws(base)
-                kb.emit_function(csig, sl, lambda_rules(cont), list(c.fn) + [["F", "__CPROVER_assigns(verif_noexcept)"]], c.loops, base,
-                                 pre=lambda b, w=w, ne=is_noexcept: "verif_noexcept = %d; /* the lambda is %sdeclared noexcept */" % (ne, "" if ne else "not ") + w(b), ghost=c.ghost)
+                # every harness starts with verif_noexcept = 0; only a lambda that IS declared noexcept sets (and may assign) the ghost
+                kb.emit_function(csig, sl, lambda_rules(cont), list(c.fn) + ([["F", "__CPROVER_assigns(verif_noexcept)"]] if is_noexcept else []), c.loops, base,
+                                 pre=(lambda b, w=w: "verif_noexcept = 1; /* this lambda is declared so */" + w(b)) if is_noexcept else w, ghost=c.ghost)
                 harness(base, csig)
             elif reg.kind == "member":
                 cls, member = det
